@@ -3,7 +3,7 @@
    answers as the plain scan, for every text. *)
 From Coq Require Import Arith NArith List Bool Lia Sorted Permutation.
 From Blue Require Import Scrunch.ModelBits Scrunch.Model Scrunch.ModelWT Scrunch.ProofsBits
-  Scrunch.ProofsSorted Scrunch.ProofsSuffix Scrunch.ProofsSearch Scrunch.ProofsSigma
+  Scrunch.ProofsSorted Scrunch.ProofsSuffix Scrunch.ProofsIAP Scrunch.ProofsSearch Scrunch.ProofsSigma
   Scrunch.ProofsDoc Scrunch.ProofsSampled Scrunch.ProofsCompressed
   Scrunch.ProofsWT1 Scrunch.ProofsWT2 Scrunch.ProofsWT3.
 Import ListNotations.
